@@ -7,6 +7,7 @@ import (
 	"os"
 
 	"github.com/glycerine/zygomys/v9/zygo"
+	"zyverif/props"
 	"zyverif/sut"
 )
 
@@ -15,6 +16,7 @@ func main() {
 	if err != nil {
 		panic(err)
 	}
+	props.C10Register()
 	env := sut.New(true)
 	fmt.Println("before:", sut.DepthsOf(env))
 	o := sut.Eval(env, string(b), 1000000)
